@@ -8,6 +8,7 @@ import Driver.C20
 import Driver.C19
 import Driver.C18
 import Driver.Pipeline
+import Driver.Data
 open Lean
 
 def dispatch (prop : String) (input : Json) : Except String Json :=
@@ -20,6 +21,8 @@ def dispatch (prop : String) (input : Json) : Except String Json :=
   | "C20" => Driver.C20.handle input
   | "C19" => Driver.C19.handle input
   | "C18" => Driver.C18.handle input
+  | "C14" => Driver.Data.handle input
+  | "C13" => Driver.Data.handle input
   | "C06" => Driver.Pipeline.handle input
   | "C09" => Driver.Pipeline.handle input
   | "C10" => Driver.Pipeline.handle input
